@@ -116,7 +116,7 @@ class Canon:
                     return self.class_name(frame.func.cls.name)
                 pk = (id(frame), e.id)
                 if pk in self.penv:
-                    return repr(self.penv[pk].value)
+                    return self.penv[pk]
                 if e.id in frame.binding:
                     ex, fr = frame.binding[e.id]
                     if fr is None:   # default value
@@ -467,6 +467,62 @@ class Canon:
             return 'seq[%s for %s%s]' % (self.p(v, frame, d, seen), it, cs)
         return 'map[%s: %s for %s%s]' % (self.p(k, frame, d, seen), self.p(v, frame, d, seen), it, cs)
 
+    def seq_parts(self, e, frame):
+        """Structured view of a list value: for a list comprehension, or a local list built by
+        one append inside a for-loop: (elt ast, iter ast, [(cond ast, polarity)], loop var names).
+        None for anything else."""
+        if isinstance(e, (ast.ListComp, ast.GeneratorExp)) and len(e.generators) == 1:
+            g = e.generators[0]
+            return (e.elt, g.iter, [(c, True) for c in g.ifs],
+                    [x.id for x in ast.walk(g.target) if isinstance(x, ast.Name)])
+        if isinstance(e, ast.Name) and frame is not None:
+            f = frame.func
+            from .paths import assigned_names
+            defs = assigned_names(f).get(e.id, [])
+            if len(defs) == 1 and isinstance(defs[0], ast.Assign) and isinstance(defs[0].value, ast.ListComp):
+                return self.seq_parts(defs[0].value, frame)
+            if not defs or not all(isinstance(d, ast.Assign) and isinstance(d.value, ast.List)
+                                   and not d.value.elts for d in defs):
+                return None
+            sites = [n for n in walk_no_nested(f.node) if isinstance(n, ast.Call) and isinstance(
+                n.func, ast.Attribute) and isinstance(n.func.value, ast.Name) and n.func.value.id == e.id
+                and n.func.attr in MUTATORS]
+            if len(sites) != 1 or sites[0].func.attr != 'append' or len(sites[0].args) != 1:
+                return None
+            node = sites[0]
+            found = {}
+
+            def rec(n, stack):
+                for c in ast.iter_child_nodes(n):
+                    if isinstance(c, (ast.FunctionDef, ast.AsyncFunctionDef, ast.ClassDef, ast.Lambda)):
+                        continue
+                    ns = stack
+                    if isinstance(n, (ast.For, ast.AsyncFor)) and c in n.body:
+                        ns = stack + [('for', n)]
+                    elif isinstance(n, ast.If) and c in n.body:
+                        ns = stack + [('if', n.test, True)]
+                    elif isinstance(n, ast.If) and c in n.orelse:
+                        ns = stack + [('if', n.test, False)]
+                    elif isinstance(n, ast.While) and c in n.body:
+                        ns = stack + [('while', n)]
+                    if isinstance(c, ast.Expr) and c.value is node:
+                        found['ns'] = ns
+                        return True
+                    if rec(c, ns):
+                        return True
+                return False
+            rec(f.node, [])
+            ns = found.get('ns')
+            if not ns:
+                return None
+            fors = [i for i, x in enumerate(ns) if x[0] == 'for']
+            if not fors or any(x[0] == 'while' for x in ns[fors[-1] + 1:]):
+                return None
+            loop = ns[fors[-1]][1]
+            conds = [(x[1], x[2]) for x in ns[fors[-1] + 1:] if x[0] == 'if']
+            return (node.args[0], loop.iter, conds, [x.id for x in ast.walk(loop.target) if isinstance(x, ast.Name)])
+        return None
+
     # helper methods whose NAME carries meaning for the rules are never inlined
     NO_INLINE = {'_create_observation_task_id', 'get_machine_from_id', 'is_task_finished',
                  'get_idle_resources', 'get_available_resources', 'current_available_resources',
@@ -619,11 +675,25 @@ def track_path_consts(canon, ev):
             for x in ast.walk(t):
                 if isinstance(x, ast.Name):
                     canon.penv.pop((id(ev.frame), x.id), None)
-        if len(n.targets) == 1 and isinstance(n.targets[0], ast.Name) and isinstance(
-                n.value, ast.Constant) and isinstance(n.value.value, (str, bool)):
-            canon.penv[(id(ev.frame), n.targets[0].id)] = n.value
+        if len(n.targets) == 1 and isinstance(n.targets[0], ast.Name):
+            nm = n.targets[0].id
+            if isinstance(n.value, ast.Constant) and isinstance(n.value.value, (str, bool)):
+                canon.penv[(id(ev.frame), nm)] = repr(n.value.value)
+            elif isinstance(n.value, (ast.Attribute, ast.Subscript)) and _pure_loc(n.value):
+                # path-sensitive alias of a location (source = self._resources['available'])
+                canon.penv[(id(ev.frame), nm)] = canon.c(n.value, ev.frame)
     elif isinstance(n, (ast.AugAssign, ast.AnnAssign)) and isinstance(n.target, ast.Name):
         canon.penv.pop((id(ev.frame), n.target.id), None)
+
+
+def _pure_loc(e):
+    if isinstance(e, (ast.Name, ast.Constant)):
+        return True
+    if isinstance(e, ast.Attribute):
+        return _pure_loc(e.value)
+    if isinstance(e, ast.Subscript):
+        return _pure_loc(e.value) and _pure_loc(e.slice)
+    return False
 
 
 def effects_along(canon, events):
@@ -705,15 +775,39 @@ def _walk_expr(root):
             stack.append(c)
 
 
+def _as_aug(canon, t, value, fr):
+    """`L = L + d` / `L = L - d` (also through one single-assignment temporary) is the
+    augmented assignment it spells out: ('aug+'|'aug-', d) or None"""
+    v = value
+    if isinstance(v, ast.Name) and fr is not None and v.id in fr.aliases:
+        v = fr.aliases[v.id]
+    if not isinstance(v, ast.BinOp) or not isinstance(v.op, (ast.Add, ast.Sub)):
+        return None
+    tl = canon.c(t, fr)
+    if canon.c(v.left, fr) == tl:
+        return ('aug+' if isinstance(v.op, ast.Add) else 'aug-', v.right)
+    if isinstance(v.op, ast.Add) and canon.c(v.right, fr) == tl:
+        return ('aug+', v.left)
+    return None
+
+
 def _store(canon, t, value, fr, node, ev, kind):
     out = []
     if isinstance(t, (ast.Tuple, ast.List)):
         for x in t.elts:
             out += _store(canon, x, None, fr, node, ev, kind)
     elif isinstance(t, ast.Attribute):
-        out.append(Effect('assign', canon.c(t, fr),
-                          canon.c(value, fr) if value is not None else '?', node, ev, value))
+        aug = _as_aug(canon, t, value, fr)
+        if aug is not None:
+            out.append(Effect(aug[0], canon.c(t, fr), canon.c(aug[1], fr), node, ev, aug[1]))
+        else:
+            out.append(Effect('assign', canon.c(t, fr),
+                              canon.c(value, fr) if value is not None else '?', node, ev, value))
     elif isinstance(t, ast.Subscript):
+        aug = _as_aug(canon, t, value, fr)
+        if aug is not None:
+            out.append(Effect(aug[0], canon.c(t, fr), canon.c(aug[1], fr), node, ev, aug[1]))
+            return out
         out.append(Effect('store', canon.c(t.value, fr),
                           canon.c(t.slice, fr), node, ev, value))
         out.append(Effect('assign', canon.c(t, fr),
@@ -861,6 +955,15 @@ class Logic:
         if isinstance(e, ast.Name) and fr is not None and e.id in fr.aliases and \
                 isinstance(fr.aliases[e.id], (ast.BoolOp, ast.Compare, ast.UnaryOp)):
             return self.dnf(fr.aliases[e.id], fr, pol, depth)
+        if isinstance(e, ast.Name) and fr is not None and e.id not in fr.binding:
+            # a flag assigned exactly once from a boolean expression / predicate call stands for it
+            from .paths import assigned_names
+            defs = assigned_names(fr.func).get(e.id, [])
+            if len(defs) == 1 and isinstance(defs[0], ast.Assign) and len(defs[0].targets) == 1 and \
+                    isinstance(defs[0].targets[0], ast.Name) and e.id not in fr.func.params and \
+                    isinstance(defs[0].value, (ast.BoolOp, ast.Compare, ast.UnaryOp, ast.Call)) and \
+                    not any(isinstance(x, ast.Name) and x.id == e.id for x in ast.walk(defs[0].value)):
+                return self.dnf(defs[0].value, fr, pol, depth)
         if isinstance(e, ast.Name) and fr is not None and e.id in fr.binding:
             ex, f2 = fr.binding[e.id]
             if f2 is not None and isinstance(ex, (ast.BoolOp, ast.Compare, ast.UnaryOp, ast.Call)):
